@@ -887,6 +887,17 @@ func (k *c18Checker) build() bool {
 					}
 				}
 			}
+			if cs.Reinit {
+				// a refused frequency vector (21 entries) leaves nothing behind
+				bad := make([]float64, 21)
+				for i := range bad {
+					bad[i] = 1.0 / 21
+				}
+				if m.InitModel(bad) == nil {
+					err = fmt.Errorf("a frequency vector of 21 entries was accepted")
+					return
+				}
+			}
 			if err = m.InitModel(user); err != nil {
 				return
 			}
